@@ -291,3 +291,45 @@ func vResetGlobals() {
 	writeToClipboard = vOrigClipboard
 	vSetHashStep(10 * 1024 * 1024)
 }
+
+// enumeration support: the thorough tiers of C02/C10/C11/C18 run every base scenario once without
+// a fault to count the places where one could be put, and then once per (place, kind). A job in
+// enumeration mode carries the place in its parameters; the tape draws that would have chosen it
+// are still made (and ignored) so that everything before the fault is identical to the base run.
+func (rc *runCtx) enumInt(name string) (int, bool) {
+	v, ok := rc.job.Params[name]
+	if !ok {
+		return 0, false
+	}
+	var n int
+	if _, err := fmt.Sscan(v, &n); err != nil {
+		return 0, false
+	}
+	return n, true
+}
+
+// vFirer decides at which candidate place a fault/stop/pause happens.
+type vFirer struct {
+	rc    *runCtx
+	label string
+	pm    int
+	count int
+	fired bool
+	once  bool
+}
+
+func (f *vFirer) fire() bool {
+	if f.once && f.fired {
+		return false
+	}
+	idx := f.count
+	f.count++
+	sampled := f.rc.tape.Bool(f.label, f.pm)
+	if k, ok := f.rc.enumInt("enum_k"); ok {
+		sampled = k == idx // k < 0: count only
+	}
+	if sampled {
+		f.fired = true
+	}
+	return sampled
+}
